@@ -4,7 +4,7 @@ open ScadVerif ScadVerif.Driver
 
 def mtList (m : Mt4 Float) : List Float :=
   [m.x.x, m.x.y, m.x.z, m.x.w, m.y.x, m.y.y, m.y.z, m.y.w, m.z.x, m.z.y, m.z.z, m.z.w, m.w.x, m.w.y, m.w.z, m.w.w]
-def norm (m : Mt4 Float) : Float := (mtList m).foldl (fun a x => fmax a x.abs) 0.0
+def norm (m : Mt4 Float) : Float := (mtList m).foldl (fun a x => fmax a x.abs) F!(0.0)
 def mtClose (a b : Mt4 Float) (tol : Float) : Bool :=
   ((mtList a).zip (mtList b)).all fun (x, y) => (x - y).abs ≤ tol
 def mtSame (a b : Mt4 Float) : Bool := ((mtList a).zip (mtList b)).all fun (x, y) => x == y
@@ -23,15 +23,15 @@ def hMm : Handler := fun args impl => do
     ("t_ab", oMt4 (a * b).transposed), ("tb_ta", oMt4 (b.transposed * a.transposed)),
     ("ap", oPt4 (a * p)), ("ap3", oPt3 (Mt4.mulPt3 a p.asPt3))]
   let mut fails : List String := []
-  let na := 1.0 + norm a; let nb := 1.0 + norm b; let np := 1.0 + pnorm p
-  let eps := 1e-13
+  let na := F!(1.0) + norm a; let nb := F!(1.0) + norm b; let np := F!(1.0) + pnorm p
+  let eps := F!(1e-13)
   let abp ← impl.parse "abp" pt4; let a_bp ← impl.parse "a_bp" pt4
-  if !(p4Close abp a_bp (64.0 * eps * na * nb * np)) then fails := fails ++ ["mul_vec_assoc:(A*B)*p!=A*(B*p)"]
+  if !(p4Close abp a_bp (F!(64.0) * eps * na * nb * np)) then fails := fails ++ ["mul_vec_assoc:(A*B)*p!=A*(B*p)"]
   -- against the true matrix product (the model's product is proved to be it: Props/C09)
   let ab ← impl.parse "ab" mt4
-  if !(mtClose ab (a * b) (64.0 * eps * na * nb)) then fails := fails ++ ["mul_is_matrix_product"]
+  if !(mtClose ab (a * b) (F!(64.0) * eps * na * nb)) then fails := fails ++ ["mul_is_matrix_product"]
   let ap ← impl.parse "ap" pt4
-  if !(p4Close ap (a * p) (64.0 * eps * na * np)) then fails := fails ++ ["mul_vec_is_matrix_vector_product"]
+  if !(p4Close ap (a * p) (F!(64.0) * eps * na * np)) then fails := fails ++ ["mul_vec_is_matrix_vector_product"]
   let ia ← impl.parse "ia" mt4; let ai ← impl.parse "ai" mt4; let ip ← impl.parse "ip" pt4
   if !(mtSame ia a) then fails := fails ++ ["identity_left_neutral"]
   if !(mtSame ai a) then fails := fails ++ ["identity_right_neutral"]
@@ -42,7 +42,7 @@ def hMm : Handler := fun args impl => do
   if !(mtSame t ⟨⟨a.x.x, a.y.x, a.z.x, a.w.x⟩, ⟨a.x.y, a.y.y, a.z.y, a.w.y⟩, ⟨a.x.z, a.y.z, a.z.z, a.w.z⟩, ⟨a.x.w, a.y.w, a.z.w, a.w.w⟩⟩) then
     fails := fails ++ ["transposed_entries"]
   let t_ab ← impl.parse "t_ab" mt4; let tb_ta ← impl.parse "tb_ta" mt4
-  if !(mtClose t_ab tb_ta (64.0 * eps * na * nb)) then fails := fails ++ ["transposed_mul"]
+  if !(mtClose t_ab tb_ta (F!(64.0) * eps * na * nb)) then fails := fails ++ ["transposed_mul"]
   pure (model, fails)
 
 def hTr : Handler := fun args impl => do
@@ -54,14 +54,14 @@ def hTr : Handler := fun args impl => do
     ("sc", oPt4 (s * p.asPt4 w)), ("tm_sm", oMt4 (m * s)), ("sm_tm", oMt4 (s * m))]
   let mut fails : List String := []
   let pt ← impl.parse "pt" pt4
-  if !(p4Same pt ⟨p.x + t.x, p.y + t.y, p.z + t.z, 1.0⟩) then
+  if !(p4Same pt ⟨p.x + t.x, p.y + t.y, p.z + t.z, F!(1.0)⟩) then
     fails := fails ++ [s!"translate_moves_point:got=({fmtF pt.x},{fmtF pt.y},{fmtF pt.z},{fmtF pt.w})"]
   let dir ← impl.parse "dir" pt4
-  if !(p4Same dir ⟨p.x, p.y, p.z, 0.0⟩) then fails := fails ++ ["translate_leaves_direction"]
+  if !(p4Same dir ⟨p.x, p.y, p.z, F!(0.0)⟩) then fails := fails ++ ["translate_leaves_direction"]
   let sc ← impl.parse "sc" pt4
   if !(p4Same sc ⟨p.x * t.x, p.y * t.y, p.z * t.z, w⟩) then fails := fails ++ ["scale_per_axis"]
   let gen ← impl.parse "gen" pt4
-  let tol := 1e-12 * (1.0 + pnorm (p.asPt4 w)) * (1.0 + pnorm (t.asPt4 1))
+  let tol := F!(1e-12) * (F!(1.0) + pnorm (p.asPt4 w)) * (F!(1.0) + pnorm (t.asPt4 1))
   if !(p4Close gen ⟨p.x + w * t.x, p.y + w * t.y, p.z + w * t.z, w⟩ tol) then
     fails := fails ++ ["translate_homogeneous"]
   pure (model, fails)
@@ -79,11 +79,11 @@ def hInv : Handler := fun args impl => do
   match r with
   | none =>
     -- None only for a zero determinant
-    if !(a.det == 0.0) then fails := fails ++ ["inverse_none_but_det_nonzero"]
+    if !(a.det == F!(0.0)) then fails := fails ++ ["inverse_none_but_det_nonzero"]
   | some n =>
     if sing then fails := fails ++ ["inverse_some_for_singular_matrix"]
     let i : Mt4 Float := Mt4.identity
-    let tol := 1e-12 * (1.0 + norm a) * (1.0 + norm n) * 64.0
+    let tol := F!(1e-12) * (F!(1.0) + norm a) * (F!(1.0) + norm n) * F!(64.0)
     -- products computed with the reference product on the implementation's inverse
     if !(mtClose (a * n) i tol && mtClose (n * a) i tol) then fails := fails ++ ["inverse_is_not_two_sided_inverse"]
     if !sing then
@@ -99,7 +99,7 @@ def hIdx : Handler := fun args impl => do
   let mut fails : List String := []
   if i < 16 then
     let g ← impl.parse "get" f64
-    if !(g == (mtList a).getD i 0.0) then fails := fails ++ ["index_column_major_read"]
+    if !(g == (mtList a).getD i F!(0.0)) then fails := fails ++ ["index_column_major_read"]
     let s ← impl.parse "set" mt4
     let expect := (mtList a).set i v
     if !(((mtList s).zip expect).all fun (x, y) => x == y) then fails := fails ++ ["index_column_major_write"]
@@ -117,10 +117,10 @@ def hApply : Handler := fun args impl => do
   let rp ← impl.parse "poly_pts" (listOf pt3)
   if r.length ≠ ps.length || rp.length ≠ ps.length then fails := fails ++ ["apply_matrix_length"]
   else
-    let tol := 1e-12 * (1.0 + norm a)
+    let tol := F!(1e-12) * (F!(1.0) + norm a)
     for (p, q) in ps.zip r do
       let e := a * p.asPt4 1
-      let sc := tol * (1.0 + fmax (fmax p.x.abs p.y.abs) p.z.abs)
+      let sc := tol * (F!(1.0) + fmax (fmax p.x.abs p.y.abs) p.z.abs)
       if !((q.x - e.x).abs ≤ sc && (q.y - e.y).abs ≤ sc && (q.z - e.z).abs ≤ sc) then
         fails := fails ++ ["apply_matrix_full_affine_map"]; break
     if impl.find "pts" ≠ impl.find "poly_pts" then fails := fails ++ ["polyhedron_apply_matrix_differs"]
